@@ -415,6 +415,7 @@ pub fn run(args: &Args) -> i32 {
     {
         use rayon::prelude::*;
         failing.par_iter().enumerate().for_each(|(k, (f, name))| {
+            let _g = case_guard(71, k as u64);
             let mut r = Rng::for_case(args.seed, 71, k as u64);
             let h = vec![HistItem::Fail(f.clone(), name.clone())];
             for _ in 0..args.vol(12, 60) {
